@@ -600,6 +600,7 @@ pub fn arg_for(r: &mut Rng, ty: &Type) -> ArgValue {
             1 => r.range(1, 5) as i128,
             2 => -(r.range(1, 1000) as i128),
             3 => r.i128_bits(66),
+            4 if r.chance(1, 3) => *r.pick(&[i128::MAX, i128::MIN, 1i128 << 126, -(1i128 << 126), (1i128 << 64), i128::MAX / 1000]),
             _ => 1_000_000 + r.below(10_000_000) as i128,
         }),
         Type::Bool => ArgValue::Bool(r.chance(1, 2)),
